@@ -291,6 +291,16 @@ def explore(ctx):
         if why:
             ctx.violation('best-standard', why, {'kind': 'std', 'caps': caps, 'faults': faults})
         best_cases.append(('[' + '; '.join(f'({i}, ({c})%Z)' for i, c in enumerate(counts)) + ']', [1, chosen, counts[chosen]] if chosen >= 0 else [-1, -1]))
+    query_cases = []
+    for nq in (0, 1, 3, 8):
+        setup(ctx, {'caps': {'c++14': nq}})
+        path = os.path.join(ctx.tmp, 'tc.cc')
+        with open(path, 'w') as f:
+            f.write(''.join(f'I{i}\n' for i in range(8)))
+        pq = mk_pass('bin', 'c++14')
+        st_ = pq.new(path, None)
+        cnt = pq.count_instances(path)
+        query_cases.append((f'(3%Z, ({nq})%Z)', [cnt] + ([0] if st_ is None else [1, st_.index, st_.chunk, st_.instances])))
     # the count query that seeds the cursor fails (hangs past the timeout, exits non-zero, prints no count): there is no count
     # to stay within, so no range may be requested at all
     for std in (['c++17'] if ctx.quick() else ['c++98', 'c++17', 'c++2b']):
@@ -303,6 +313,11 @@ def explore(ctx):
             pass_.QUERY_TIMEOUT = 1.0 if fault == 'sleep' else 120
             steps, final, reason = run_ref(pass_, path, lambda c: False, ctx.tmp, max_steps=40)
             log = read_log(scen)
+            # what count_instances yields and whether new() gives a cursor, against the model (inside Coq)
+            setup(ctx, {'caps': {}, 'query_faults': {std: fault}, 'sleep': 3.0})
+            st_ = pass_.new(path, None)
+            cnt = pass_.count_instances(path)
+            query_cases.append((f'(({ {"sleep": 0, 1: 1, "nocount": 2}[fault] })%Z, 0%Z)', [cnt] + ([0] if st_ is None else [1, st_.index, st_.chunk, st_.instances])))
             ctx.evaluations += 1
             ctx.count('seeding-query-fails:' + str(fault))
             ctx.nontriv(('seed-query', std, fault))
@@ -344,7 +359,7 @@ def explore(ctx):
                 ctx.violation('best-standard', 'pass object used for a second input: ' + why, {'kind': 'std', 'caps': caps, 'faults': {}})
     ctx.sample({'mono_case': mono[len(mono) // 2][0], 'range_log': mono[len(mono) // 2][1][:30]})
     ctx.sample({'best_std_case': best_cases[0][0], 'chosen': best_cases[0][1]})
-    for nm, fn, cs in (('c15m', 'mono_run', mono), ('c15s', 'seq_run', seq), ('c15r', 'result_case', rc_cases), ('c15b', 'best_case', best_cases)):
+    for nm, fn, cs in (('c15m', 'mono_run', mono), ('c15s', 'seq_run', seq), ('c15r', 'result_case', rc_cases), ('c15b', 'best_case', best_cases), ('c15q', 'query_case', query_cases)):
         bad = coq.corr_eval(nm, imports, fn, cs, shard=400)
         ctx.corr_cases += len(cs)
         ctx.corr_disagree += len(bad)
